@@ -164,7 +164,8 @@ FAMILIES["life"] = {
     "code_names": {1: "undecodable case", 70: "panic outcome differs from the lifecycle model",
                    500: "C20: a public call panicked", 501: "C20: Leave / UpdateNode / another call blocked past its timeout",
                    502: "C20: the network was used after Shutdown had returned", 503: "C20: background activity continued after Shutdown",
-                   504: "C20: Shutdown is not idempotent: the transport was shut down more than once"},
+                   504: "C20: Shutdown is not idempotent: the transport was shut down more than once",
+                   505: "C20: Leave is not idempotent: after a Leave that returned nil a later Leave returned an error"},
     "assumptions": ["data races, deadlocks and goroutine termination are runtime behaviours: observed (bubble exit, -race stress in the thorough tier), not proved",
                     "the real-socket half of 'nothing reaches the network after Shutdown' uses loopback sockets outside the virtual-time bubble"],
 }
